@@ -1371,7 +1371,8 @@ class Font(BaseObject):
         this decision up to you.
         """
         assert self.path is not None
-        with UFOReader(self.path, validate=self.ufoLibReadValidate) as reader:
+        reader = UFOReader(self.path, validate=self.ufoLibReadValidate)
+        try:
             infoChanged = self._testInfoForExternalModifications(reader)
             kerningChanged = self._testKerningForExternalModifications(reader)
             groupsChanged = self._testGroupsForExternalModifications(reader)
@@ -1384,6 +1385,14 @@ class Font(BaseObject):
             modifiedData = addedData = deletedData = []
             if self._data is not None:
                 modifiedData, addedData, deletedData = self._data.testForExternalChanges(reader)
+        finally:
+            # the layers have been bound to glyph sets of this reader: keep
+            # it open as the font's reader (closing it would leave every layer
+            # unable to load a glyph) and close the one it replaces.
+            oldReader = getattr(self, "_reader", None)
+            self._reader = reader
+            if oldReader is not None:
+                oldReader.close()
         # deprecated stuff
         defaultLayerName = self.layers.defaultLayer.name
         modifiedGlyphs = layerChanges["modified"].get(defaultLayerName, {}).get("modified")
